@@ -129,9 +129,9 @@ def check_model(ctx, out, rule="C07.model"):
                     out.viol(rule, "%s|%s|verdict" % (rule, tag), ctx.where(vb),
                              "%s: violations are built for content line index(es) %s; expected %s (a violation exactly when two keys are equal, designating the first line whose key has already occurred)"
                              % (desc, sorted(rep.reported) or "none", sorted(want) or "none"))
-            elif want and any(k == 0 for k in rep.ends):
+            elif want and any(k == 0 and not (seen_idx & want) for k, seen_idx in rep.ends):
                 out.viol(rule, "%s|%s|passed-over" % (rule, tag), ctx.where(vb),
-                         "%s: on some path the block is left for the next one without the violation being built - a block can be passed over although two of its keys are equal" % desc)
+                         "%s: on some path the block is left for the next one without the violation being built - a block can be passed over (its offending line is never even located) although two of its keys are equal" % desc)
             else:
                 n += 1
     out.inst(rule, n, total, ["3 modes x 27 key patterns of 3 lines: violation iff a key repeats, at the first repeating line"], exhaustive=True)
